@@ -1,7 +1,11 @@
 """C19 — BSS-eval decomposition, invariances and framewise consistency (DESIGN §5 C19).
 
-Tie (correspondence).  The least-squares projection is not modelled; everything around it is, and the model is
-run against the real code on the real code's own intermediates:
+Tie (correspondence).  Around an abstract projection (C19.lean) the model is run against the real code on the real
+code's own intermediates; the projection itself has an exact rational model for small filter lengths
+(MirModel/SeparationLS.lean, theorems in C19_LS.lean) that is compared with the real `_project`,
+`_project_images`, `_bss_decomp_mtifilt(_images)`, `_bss_source_crit/_bss_image_crit` and the public
+`bss_eval_sources/images` (suites ls_project, ls_decomp, ls_eval, ls_images, ls_singular; oracle site
+`separation._project`: normal equations, span, homogeneity, reference rescaling, idempotence on the real code):
   * decomp_real / crit_real : `_bss_decomp_mtifilt(_images)` with the two `_project(_images)` results captured,
     `_bss_source_crit/_bss_image_crit` on the components the code produced (exact rationals of the doubles);
   * perm_real : the full criterion table assembled from the private functions -> model selection vs. the
@@ -30,15 +34,26 @@ import mir_eval.separation as sep
 from core import Case
 
 PID = "C19"
-LEAN_MODULES = ["MirProofs.Props.C19"]
+LEAN_MODULES = ["MirProofs.Props.C19", "MirProofs.Props.C19_LS"]
 RULE = ("stub suites: exact small-integer lattice, ties and silent stretches generated on purpose; real suites: "
         "gaussian references, mixed/filtered/noise estimates, nsrc 1-3, nchan 1-2; non-trivial = the public "
         "function returns values (no exception, non-empty input)")
 ASSUMPTIONS = [
-    "the least-squares projection (_project/_project_images: FFT, Toeplitz Gram matrix, solve, fftconvolve) is "
-    "an abstract parameter of the theorems; its numerics are covered by the oracle only",
-    "scale-invariance theorems assume a homogeneous, span-dependent projection and a quadratic energy; binary64 "
-    "satisfies this up to rounding (oracle tolerance 1e-6 dB)",
+    "C19.lean: the least-squares projection (_project/_project_images) is an abstract parameter of those theorems. "
+    "C19_LS.lean instantiates them at an EXACT rational model of _project (MirModel/SeparationLS.lean: Gram matrix "
+    "of the delayed references, Gaussian elimination, projected signal) with no hypothesis on the projection left; "
+    "that the FFT / Toeplitz / np.linalg.solve / fftconvolve pipeline of the code computes this projection is "
+    "checked by correspondence (suites ls_*: tiny integer signals, nsrc 1-2, 8-24 samples, flen forced to 1..3, "
+    "Gram matrices non-singular with exact cond_1 <= 1e6; 1e-9), not proved; for flen = 512 and long signals the "
+    "numerics are covered by the oracle only",
+    "binary64 satisfies the exact model's identities up to rounding (oracle tolerance 1e-6 dB for scale "
+    "invariance); the exact theorems need a non-singular Gram matrix (solve? succeeded) wherever a value is asserted",
+    "a singular Gram matrix (np.linalg.solve raises LinAlgError or meets a tiny pivot; lstsq fallback) is outside "
+    "the domain of project_exact; suite ls_singular compares that branch with an exact any-solution projection "
+    "(solveAny?, sound, extends solve?) on duplicated / doubled references and duplicated channels",
+    "exact bss_eval_sources/images order permutations by the PRODUCT of the SIR energy ratios; that this is the "
+    "order of the mean of 10*log10 (monotonicity of log) is not proved; cases with a top gap < 1e-6 dB, with a "
+    "ratio outside [1e-5, 1e5] or with an exactly zero denominator the code cannot reproduce are skipped",
     "model criteria are finite rationals; +/-inf criterion tables are outside the model domain (nsrc = 1 SIR)",
     "most oracle inputs run the real code with flen forced to 4..32 instead of 512 (same code path)",
 ]
@@ -47,8 +62,14 @@ ASSUMPTIONS = [
 EXHAUSTIVE = {"quick": False, "thorough": True}
 UNPROVED = [
     "perfect estimate => identity permutation and SDR > 100 dB in binary64 (oracle only; in exact arithmetic: "
-    "perfect_estimate_sources/images, bestPerm_identity_of_dominant)",
-    "homogeneity / span-dependence of the actual _project numerics (hypotheses of source_crit_scale_est/ref)",
+    "perfect_estimate_sources/images, sourceCritExact_perfect, decompExact_perfect, bestPerm_identity_of_dominant)",
+    "the FFT-based computation of G and D, np.linalg.solve and fftconvolve equal the exact Gram matrix / solution / "
+    "combination (correspondence ls_project incl. the G, D handed to np.linalg.solve; not proved: no binary64 model)",
+    "exact model of _project_images (per-channel projectOn on all delayed reference channels) and the image "
+    "criteria on it: executable and tied by correspondence (ls_images), no separate theorems (projectOn's apply "
+    "channel by channel)",
+    "solveAny? always succeeds on normal equations (they are consistent); only its soundness is proved",
+    "argmax of mean SIR in dB = argmax of the product of SIR ratios (log monotone; Float-free model choice)",
 ]
 
 SENT = 424242.0  # what a poisoned np.empty is filled with (Mir.Separation.uninitSentinel)
@@ -541,6 +562,400 @@ def suite_perm_real(rng, tier, shard, nshards):
                    info=dict(r, cp=cp, images=images))
 
 
+# ----------------------------------------------------------------------------------------
+# exact least-squares model (MirModel/SeparationLS.lean) vs the real `_project` & co.
+#
+# Tiny integer-valued signals (nsrc 1-2, 8-24 samples), the code's filter length forced to 1..3.  A candidate is
+# kept only when the exact model says that every Gram matrix involved is non-singular with a 1-norm condition
+# number <= 1e6 (decided over Rat in the model, `separation.gram_info_exact`) and, for the criteria, that every
+# finite energy ratio lies in [1e-5, 1e5] (so that 1e-9 on the dB value is a fair bound for binary64).
+
+LS_COND_MAX = 10 ** 6
+LS_RATIO_MAX = Fr(10 ** 5)
+
+
+def _ls_signal(rng, n, kind):
+    if kind == "sparse":
+        x = [rng.choice([0, 0, 1, -1, 2]) for _ in range(n)]
+    elif kind == "ramp":
+        a, b = rng.randint(-2, 2), rng.randint(1, 3)
+        x = [((a + b * t) % 7) - 3 for t in range(n)]
+    else:
+        x = [rng.randint(-4, 4) for _ in range(n)]
+    if not any(x):
+        x[rng.randrange(n)] = 1
+    return x
+
+
+def _ls_candidate(rng):
+    nsrc = rng.choice([1, 2, 2])
+    n = rng.randint(8, 24)
+    flen = rng.choice([1, 2, 3])
+    refs = [_ls_signal(rng, n, rng.choice(["dense", "dense", "sparse", "ramp"])) for _ in range(nsrc)]
+    kind = rng.choice(["noise", "mix", "filtered", "scaled"])
+    ests = []
+    for j in range(nsrc):
+        if kind == "noise":
+            e = _ls_signal(rng, n, "dense")
+        elif kind == "mix":
+            a = [rng.randint(-2, 3) for _ in range(nsrc)]
+            a[j] = a[j] or 2
+            e = [sum(a[i] * refs[i][t] for i in range(nsrc)) + rng.choice([0, 0, 1, -1]) for t in range(n)]
+        elif kind == "filtered":
+            h = [rng.randint(1, 3), rng.randint(-2, 2), rng.randint(-1, 1)]
+            e = [sum(h[d] * refs[j][t - d] for d in range(3) if t - d >= 0) + rng.choice([0, 0, 0, 1, -1])
+                 for t in range(n)]
+        else:
+            c = rng.choice([-3, 2, 5])
+            e = [c * refs[j][t] + rng.choice([0, 1, -1]) for t in range(n)]
+        if not any(e):
+            e[rng.randrange(n)] = 1
+        ests.append(e)
+    if nsrc == 2 and rng.random() < 0.4:
+        ests.reverse()
+    return {"refs": refs, "ests": ests, "flen": flen, "kind": kind}
+
+
+def _frs(xs):
+    return [Fr(x) for x in xs]
+
+
+def _ask_model(reqs):
+    """[(op, args)] -> decoded model answers (Err for bad-op)"""
+    import core
+    import proto
+    lines = ["%d %s %s\n" % (i, op, " ".join(proto.enc(a) for a in args)) for i, (op, args) in enumerate(reqs)]
+    outs = core.run_driver(lines) if lines else []
+    return [proto.dec_line(outs[i])[1] for i in range(len(reqs))]
+
+
+def _ls_well_conditioned(cands):
+    """keep the candidates whose Gram matrices (all references; each reference alone) are non-singular with
+    cond_1 <= 1e6 according to the exact model"""
+    import proto
+    infos = _ask_model([("separation.gram_info_exact", [[_frs(r) for r in c["refs"]], c["flen"]]) for c in cands])
+    keep = []
+    for c, info in zip(cands, infos):
+        if isinstance(info, proto.Err) or not isinstance(info, list):
+            raise AssertionError("separation.gram_info_exact answered %r" % (info,))
+        if any(k is None for k in info) or max(info) > LS_COND_MAX:
+            continue
+        c["cond"] = float(max(info))
+        keep.append(c)
+    return keep
+
+
+def _ratio_db(v):
+    """model energy ratio (Fraction | inf) -> dB as the code's `_safe_db` reports it"""
+    if isinstance(v, list):
+        return [_ratio_db(x) for x in v]
+    if isinstance(v, float):          # inf
+        return v
+    if v == 0:
+        return float("-inf")
+    return 10.0 * (math.log10(v.numerator) - math.log10(v.denominator))
+
+
+def _ratios_fair(vals, inf_ok=()):
+    """every finite ratio in [1e-5, 1e5]; an infinite one (denominator exactly 0 in the model) only at the
+    positions `inf_ok` of a criterion tuple, where the code's denominator is an exact 0 as well (SIR when all
+    references are the target: e_interf = (p - s) - (p - s) with the same p twice)"""
+    for k, v in enumerate(vals):
+        if isinstance(v, list):
+            if not _ratios_fair(v, inf_ok):
+                return False
+        elif isinstance(v, Fr):
+            if not (1 / LS_RATIO_MAX <= v <= LS_RATIO_MAX):
+                return False
+        elif k not in inf_ok:
+            return False
+    return True
+
+
+class _SolveSpy:
+    """Stands in for the `np` global of mir_eval.separation: records the arguments of np.linalg.solve."""
+
+    def __init__(self, rec):
+        spy = self
+
+        class _LA:
+            def __getattr__(self, k):
+                return getattr(np.linalg, k)
+
+            @staticmethod
+            def solve(G, D):
+                rec.append((np.array(G, dtype=float), np.array(D, dtype=float)))
+                return np.linalg.solve(G, D)
+        spy.linalg = _LA()
+
+    def __getattr__(self, k):
+        return getattr(np, k)
+
+
+def _ncand(tier):
+    return 40 if tier == "quick" else 400
+
+
+def suite_ls_project(rng, tier, shard, nshards):
+    """`_project` (value, and the G, D it hands to np.linalg.solve) vs the exact model"""
+    cands = _ls_well_conditioned([_ls_candidate(rng) for _ in range(_ncand(tier))])
+    for c in cands:
+        refs, flen = c["refs"], c["flen"]
+        nsrc = len(refs)
+        je = rng.randrange(nsrc)
+        est = c["ests"][je]
+        info = {"refs": refs, "est": est, "flen": flen, "kind": c["kind"], "cond": c["cond"]}
+        tag = "nsrc=%d flen=%d %s" % (nsrc, flen, c["kind"])
+        for sub in [list(range(nsrc))] + ([[rng.randrange(nsrc)]] if nsrc > 1 else []):
+            rr = [refs[i] for i in sub]
+            R, E = np.array(rr, dtype=float), np.array(est, dtype=float)
+            yield Case("separation.project_exact", [[_frs(r) for r in rr], _frs(est), flen],
+                       lambda R=R, E=E, flen=flen: sep._project(R, E, flen), tol=1e-9, tag=tag,
+                       info=dict(info, refs=rr))
+
+            def gd(R=R, E=E, flen=flen):
+                rec = []
+                with patched(np=_SolveSpy(rec)):
+                    sep._project(R, E, flen)
+                return [rec[0][0], rec[0][1]]
+            yield Case("separation.gram_exact", [[_frs(r) for r in rr], _frs(est), flen], gd, tol=1e-9,
+                       tag="G,D " + tag, info=dict(info, refs=rr))
+
+
+def _ls_singular(rng):
+    """references whose delayed copies are exactly linearly dependent (a repeated or doubled reference): the
+    code's `np.linalg.solve` raises LinAlgError (or meets a tiny pivot) and `lstsq` is used"""
+    n, flen = rng.randint(8, 24), rng.choice([1, 2, 3])
+    r0 = _ls_signal(rng, n, "dense")
+    kind = rng.choice(["dup", "dup3", "doubled"])
+    if kind == "dup":
+        refs = [r0, list(r0)]
+    elif kind == "dup3":
+        refs = [r0, _ls_signal(rng, n, "dense"), list(r0)]
+    else:
+        refs = [r0, [2 * x for x in r0]]
+    return {"refs": refs, "est": _ls_signal(rng, n, "dense"), "flen": flen, "kind": "singular-" + kind}
+
+
+def _solve_raises(fn):
+    """run `fn` (a call into mir_eval.separation) and tell whether its np.linalg.solve raised LinAlgError"""
+    seen = []
+
+    class _LA:
+        def __getattr__(self, k):
+            return getattr(np.linalg, k)
+
+        @staticmethod
+        def solve(G, D):
+            try:
+                return np.linalg.solve(G, D)
+            except np.linalg.LinAlgError:
+                seen.append(True)
+                raise
+
+    class _NP:
+        linalg = _LA()
+
+        def __getattr__(self, k):
+            return getattr(np, k)
+    import warnings
+    with warnings.catch_warnings():
+        warnings.simplefilter("ignore")
+        with patched(np=_NP()):
+            out = fn()
+    return bool(seen), out
+
+
+def _ls_singular_images(rng, est, flen):
+    """one stereo source with identical channels (+ possibly a second, independent source)"""
+    ch = _ls_signal(rng, len(est), "dense")
+    refs3 = [[ch, list(ch)]] + ([[_ls_signal(rng, len(est), "dense") for _ in range(2)]] if rng.random() < 0.5 else [])
+    estc = [est, _ls_signal(rng, len(est), "dense")]
+    return {"refs3": refs3, "est": estc, "flen": min(flen, 2)}
+
+
+def suite_ls_singular(rng, tier, shard, nshards):
+    """`_project` / `_project_images` on rank-deficient references vs the exact projection with free unknowns set
+    to 0 (same projected signal), on the inputs where the code's np.linalg.solve does raise LinAlgError, i.e. the
+    `except LinAlgError: lstsq` branch is taken.  (Where solve returns without raising on an exactly singular
+    Gram matrix the result is rounding noise: known finding c19_rank_deficient_references_solve_no_error, oracle
+    check `ls_singular`.)"""
+    for _ in range(12 if tier == "quick" else 120):
+        c = _ls_singular(rng)
+        refs, est, flen = c["refs"], c["est"], c["flen"]
+        R, E = np.array(refs, dtype=float), np.array(est, dtype=float)
+        if _solve_raises(lambda: sep._project(R, E, flen))[0]:
+            yield Case("separation.project_lstsq_exact", [[_frs(r) for r in refs], _frs(est), flen],
+                       lambda R=R, E=E, flen=flen: sep._project(R, E, flen), tol=1e-8,
+                       tag="sources flen=%d %s" % (flen, c["kind"]), info=c)
+        ci = _ls_singular_images(rng, est, flen)
+        refs3, estc, fl = ci["refs3"], ci["est"], ci["flen"]
+        R3 = np.array(refs3, dtype=float).transpose(0, 2, 1)
+        E3 = np.array(estc, dtype=float).T
+        if _solve_raises(lambda: sep._project_images(R3, E3, fl))[0]:
+            yield Case("separation.project_images_exact",
+                       [[[_frs(x) for x in src] for src in refs3], [_frs(x) for x in estc], fl, True],
+                       lambda R3=R3, E3=E3, fl=fl: sep._project_images(R3, E3, fl), tol=1e-8,
+                       tag="images flen=%d nsrc=%d singular-dupchan" % (fl, len(refs3)), info=ci)
+
+
+def _ls_images_candidate(rng):
+    nsrc, nchan = rng.choice([1, 2, 2]), rng.choice([1, 2])
+    n, flen = rng.randint(8, 16), rng.choice([1, 2])
+    refs = [[_ls_signal(rng, n, rng.choice(["dense", "dense", "sparse"])) for _ in range(nchan)] for _ in range(nsrc)]
+    ests = []
+    for j in range(nsrc):
+        a = [rng.randint(-1, 2) for _ in range(nsrc)]
+        a[j] = a[j] or 2
+        e = [[sum(a[i] * refs[i][c][t] for i in range(nsrc)) + rng.choice([0, 1, -1, 2]) for t in range(n)]
+             for c in range(nchan)]
+        for ch in e:
+            if not any(ch):
+                ch[rng.randrange(n)] = 1
+        ests.append(e)
+    return {"refs": refs, "ests": ests, "flen": flen, "nchan": nchan}
+
+
+def _fr3(a):
+    return [[_frs(x) for x in src] for src in a]
+
+
+def suite_ls_images(rng, tier, shard, nshards):
+    """`_project_images` (also with G handed in as zeros and returned), `_bss_decomp_mtifilt_images`,
+    `_bss_image_crit`, `bss_eval_images` with and without permutation (without: the Gram matrix cached by the
+    first source is reused for the next) vs the exact model"""
+    import proto
+    cands = [_ls_images_candidate(rng) for _ in range(_ncand(tier) // 2)]
+    infos = _ask_model([("separation.gram_info_images_exact", [_fr3(c["refs"]), c["flen"]]) for c in cands])
+    keep = []
+    for c, info in zip(cands, infos):
+        if isinstance(info, proto.Err):
+            raise AssertionError("separation.gram_info_images_exact answered %r" % (info,))
+        if any(k is None for k in info) or max(info) > LS_COND_MAX:
+            continue
+        c["cond"] = float(max(info))
+        keep.append(c)
+    reqs = [("separation.bss_image_crit_exact", [_fr3(c["refs"]), [_frs(x) for x in c["ests"][je]], jt, c["flen"]])
+            for c in keep for je in range(len(c["refs"])) for jt in range(len(c["refs"]))]
+    answers = iter(_ask_model(reqs))
+    for c in keep:
+        refs, ests, flen, nchan = c["refs"], c["ests"], c["flen"], c["nchan"]
+        nsrc = len(refs)
+        table = [[next(answers) for _ in range(nsrc)] for _ in range(nsrc)]
+        R = np.array(refs, dtype=float).transpose(0, 2, 1)                    # (nsrc, nsampl, nchan)
+        Es = [np.array(e, dtype=float).T for e in ests]                        # (nsampl, nchan) each
+        tag = "nsrc=%d nchan=%d flen=%d" % (nsrc, nchan, flen)
+        je = rng.randrange(nsrc)
+        info = {"refs3": refs, "ests3": ests, "flen": flen, "cond": c["cond"], "je": je}
+        pargs = [_fr3(refs), [_frs(x) for x in ests[je]], flen]
+        yield Case("separation.project_images_exact", pargs + [False],
+                   lambda R=R, E=Es[je], flen=flen: sep._project_images(R, E, flen), tol=1e-9,
+                   tag="project " + tag, info=info)
+
+        def saveg(R=R, E=Es[je], flen=flen):
+            rec = []
+            with patched(np=_SolveSpy(rec)):
+                sproj, G = sep._project_images(R, E, flen, np.zeros(1))
+            return [G, rec[0][1]]
+        yield Case("separation.gram_images_exact", pargs, saveg, tol=1e-9, tag="G(saved),D " + tag, info=info)
+        for jt in range(nsrc):
+            dargs = [_fr3(refs), [_frs(x) for x in ests[je]], jt, flen]
+            yield Case("separation.bss_decomp_images_exact", dargs,
+                       lambda R=R, E=Es[je], jt=jt, flen=flen: list(sep._bss_decomp_mtifilt_images(R, E, jt, flen)),
+                       tol=1e-9, tag="decomp " + tag, info=info)
+            crit = table[je][jt]
+            if isinstance(crit, proto.Err):
+                raise AssertionError("separation.bss_image_crit_exact refused a well-conditioned input")
+            if _ratios_fair(crit, (2,) if nsrc == 1 else ()):
+                yield Case("separation.bss_image_crit_exact", dargs,
+                           lambda R=R, E=Es[je], jt=jt, flen=flen:
+                           [float(x) for x in sep._bss_image_crit(*sep._bss_decomp_mtifilt_images(R, E, jt, flen))],
+                           tol=1e-9, tag="crit " + tag, info=info, post=_ratio_db)
+        if not _ratios_fair(table, (2,) if nsrc == 1 else ()):
+            continue
+        for cp in (False, True):
+            if cp and nsrc > 1:
+                sir = [[t[2] for t in row] for row in table]
+                if any(not isinstance(x, Fr) or x <= 0 for row in sir for x in row) or _perm_gap_db(sir) < 1e-6:
+                    continue
+            Eall = np.array(Es)
+
+            def call(R=R, Eall=Eall, cp=cp, flen=flen):
+                with forced_flen(flen):
+                    return sep.bss_eval_images(R, Eall, cp)
+            yield Case("separation.bss_eval_images_exact", [_fr3(refs), _fr3(ests), flen, cp],
+                       call, tol=1e-9, tag="eval cp=%s %s" % (cp, tag), info=dict(info, cp=cp),
+                       post=lambda v: [_ratio_db(x) for x in v[:4]] + [v[4]])
+
+
+def suite_ls_decomp(rng, tier, shard, nshards):
+    """`_bss_decomp_mtifilt` and `_bss_source_crit` of it vs the exact model, every (estimate, reference) pair"""
+    import proto
+    cands = _ls_well_conditioned([_ls_candidate(rng) for _ in range(_ncand(tier))])
+    pairs = [(c, je, jt) for c in cands for je in range(len(c["refs"])) for jt in range(len(c["refs"]))]
+    crits = _ask_model([("separation.bss_source_crit_exact",
+                         [[_frs(r) for r in c["refs"]], _frs(c["ests"][je]), jt, c["flen"]]) for c, je, jt in pairs])
+    for (c, je, jt), crit in zip(pairs, crits):
+        refs, est, flen = c["refs"], c["ests"][je], c["flen"]
+        R, E = np.array(refs, dtype=float), np.array(est, dtype=float)
+        args = [[_frs(r) for r in refs], _frs(est), jt, flen]
+        info = {"refs": refs, "est": est, "flen": flen, "jtrue": jt, "kind": c["kind"], "cond": c["cond"]}
+        tag = "nsrc=%d flen=%d %s" % (len(refs), flen, c["kind"])
+        yield Case("separation.bss_decomp_exact", args,
+                   lambda R=R, E=E, jt=jt, flen=flen: list(sep._bss_decomp_mtifilt(R, E, jt, flen)),
+                   tol=1e-9, tag=tag, info=info)
+        if isinstance(crit, proto.Err) or not _ratios_fair(crit, (1,) if len(refs) == 1 else ()):
+            continue
+        yield Case("separation.bss_source_crit_exact", args,
+                   lambda R=R, E=E, jt=jt, flen=flen:
+                   [float(x) for x in sep._bss_source_crit(*sep._bss_decomp_mtifilt(R, E, jt, flen))],
+                   tol=1e-9, tag="crit " + tag, info=info, post=_ratio_db)
+
+
+def _perm_gap_db(sir_ratios_table):
+    """gap (dB) between the best and the second best mean SIR over all permutations of a ratio table"""
+    n = len(sir_ratios_table)
+    means = sorted((sum(_ratio_db(sir_ratios_table[p[j]][j]) for j in range(n)) / n
+                    for p in itertools.permutations(range(n))), reverse=True)
+    return means[0] - means[1] if len(means) > 1 else float("inf")
+
+
+def suite_ls_eval(rng, tier, shard, nshards):
+    """`bss_eval_sources` (filter length forced to 1..3) vs the exact model, with and without permutation"""
+    import proto
+    cands = _ls_well_conditioned([_ls_candidate(rng) for _ in range(_ncand(tier))])
+    for c in cands:
+        c["cp"] = rng.random() < 0.7
+    reqs = []
+    for c in cands:
+        refs, ests, flen = c["refs"], c["ests"], c["flen"]
+        for je in range(len(refs)):
+            for jt in range(len(refs)):
+                reqs.append(("separation.bss_source_crit_exact", [[_frs(r) for r in refs], _frs(ests[je]), jt, flen]))
+    answers = iter(_ask_model(reqs))
+    for c in cands:
+        refs, ests, flen, cp = c["refs"], c["ests"], c["flen"], c["cp"]
+        nsrc = len(refs)
+        table = [[next(answers) for _ in range(nsrc)] for _ in range(nsrc)]
+        if any(isinstance(x, proto.Err) for row in table for x in row):
+            raise AssertionError("separation.bss_source_crit_exact refused a well-conditioned input")
+        if not _ratios_fair(table, (1,) if nsrc == 1 else ()):
+            continue
+        if cp and nsrc > 1:
+            sir = [[t[1] for t in row] for row in table]
+            if any(not isinstance(x, Fr) or x <= 0 for row in sir for x in row) or _perm_gap_db(sir) < 1e-6:
+                continue
+        R, E = np.array(refs, dtype=float), np.array(ests, dtype=float)
+
+        def call(R=R, E=E, cp=cp, flen=flen):
+            with forced_flen(flen):
+                return sep.bss_eval_sources(R, E, cp)
+        yield Case("separation.bss_eval_sources_exact", [[_frs(r) for r in refs], [_frs(e) for e in ests], flen, cp],
+                   call, tol=1e-9, tag="nsrc=%d flen=%d cp=%s %s" % (nsrc, flen, cp, c["kind"]),
+                   info={"refs": refs, "ests": ests, "flen": flen, "cp": cp, "kind": c["kind"], "cond": c["cond"]},
+                   post=lambda v: [_ratio_db(v[0]), _ratio_db(v[1]), _ratio_db(v[2]), v[3]])
+
+
 SUITES = {
     "safe_db": suite_safe_db,
     "permutations": suite_permutations,
@@ -550,6 +965,11 @@ SUITES = {
     "windows": suite_windows,
     "decomp_real": suite_decomp_real,
     "perm_real": suite_perm_real,
+    "ls_project": suite_ls_project,
+    "ls_decomp": suite_ls_decomp,
+    "ls_eval": suite_ls_eval,
+    "ls_images": suite_ls_images,
+    "ls_singular": suite_ls_singular,
 }
 
 
@@ -828,6 +1248,218 @@ def check_singular(inp):
     return None if len(out) == nout else "%d arrays returned" % len(out)
 
 
+# ----------------------------------------------------------------------------------------
+# the least-squares projection itself, on the real `_project` (tiny integer signals, flen 1..3)
+
+def _delayed_basis(refs, flen):
+    """rows = the references zero-padded to nsampl+flen-1 and delayed by 0..flen-1 samples (index i*flen+d)"""
+    refs = np.atleast_2d(np.asarray(refs, dtype=float))
+    nsrc, n = refs.shape
+    B = np.zeros((nsrc * flen, n + flen - 1))
+    for i in range(nsrc):
+        for d in range(flen):
+            B[i * flen + d, d:d + n] = refs[i]
+    return B
+
+
+def check_ls(inp):
+    """`_project` is the orthogonal projection on the span of the delayed references (normal equations, result in
+    the span), is homogeneous in the estimate, does not change when a reference is rescaled, fixes the span; the
+    decomposition built on it sums to the estimate and the criteria are its documented energy ratios."""
+    refs = np.array(inp["refs"], dtype=float)
+    est = np.array(inp["est"], dtype=float)
+    flen = inp["flen"]
+    nsrc, n = refs.shape
+    B = _delayed_basis(refs, flen)
+    G = B @ B.T
+    if np.linalg.matrix_rank(G) < G.shape[0] or np.linalg.cond(G) > 1e6:
+        return None                                     # outside the region this check speaks about
+    se = np.hstack((est, np.zeros(flen - 1)))
+    scale = max(1.0, float(np.max(np.abs(se))))
+    which = inp.get("sub", "all")
+    p = sep._project(refs, est, flen)
+    if p.shape != se.shape:
+        return "_project returns shape %r for an estimate of %d samples and flen=%d" % (p.shape, n, flen)
+    if which in ("all", "normal"):
+        r = B @ (se - p)
+        if not float(np.max(np.abs(r))) <= 1e-7 * scale * max(1.0, float(np.max(np.abs(B)))) * B.shape[1]:
+            return "the residual of _project is not orthogonal to the delayed references: <b_k, se - p> = %r" % (
+                r.tolist(),)
+        c = np.linalg.lstsq(B.T, p, rcond=None)[0]
+        if not float(np.max(np.abs(B.T @ c - p))) <= 1e-7 * scale:
+            return "_project returns a signal outside the span of the delayed references (distance %.3g)" % float(
+                np.max(np.abs(B.T @ c - p)))
+    if which in ("all", "homog"):
+        for c in inp.get("factors", [-3.0, 0.5]):
+            q = sep._project(refs, c * est, flen)
+            if not float(np.max(np.abs(q - c * p))) <= 1e-7 * scale * abs(c):
+                return "_project(refs, %r*est) differs from %r*_project(refs, est) by %.3g" % (
+                    c, c, float(np.max(np.abs(q - c * p))))
+    if which in ("all", "refscale"):
+        for c in inp.get("factors", [-3.0, 0.5]):
+            for i in range(nsrc):
+                r2 = refs.copy()
+                r2[i] *= c
+                q = sep._project(r2, est, flen)
+                if not float(np.max(np.abs(q - p))) <= 1e-7 * scale:
+                    return "_project changes by %.3g when reference %d is multiplied by %r" % (
+                        float(np.max(np.abs(q - p))), i, c)
+    if which in ("all", "idem"):
+        a = np.array(inp.get("coef", list(range(1, nsrc + 1))), dtype=float)
+        e2 = a @ refs
+        q = sep._project(refs, e2, flen)
+        want = np.hstack((e2, np.zeros(flen - 1)))
+        if not float(np.max(np.abs(q - want))) <= 1e-7 * max(1.0, float(np.max(np.abs(want)))):
+            return "_project does not fix a combination of the references (coefficients %r): off by %.3g" % (
+                a.tolist(), float(np.max(np.abs(q - want))))
+    if which in ("all", "crit"):
+        E = lambda x: float(np.sum(np.asarray(x, dtype=float) ** 2))  # noqa: E731
+        for jt in range(nsrc):
+            comps = sep._bss_decomp_mtifilt(refs, est, jt, flen)
+            if len(comps) != 4 or any(np.shape(x) != se.shape for x in comps):
+                return "decomposition against reference %d: %d components of shapes %r" % (
+                    jt, len(comps), [np.shape(x) for x in comps])
+            st, es, ei, ea = comps
+            if not float(np.max(np.abs(st + es + ei + ea - se))) <= 1e-9 * scale:
+                return "s_true+e_spat+e_interf+e_artif differs from the estimate (ref %d) by %.3g" % (
+                    jt, float(np.max(np.abs(st + es + ei + ea - se))))
+            pj = sep._project(refs[jt][None, :], est, flen)
+            if not (float(np.max(np.abs(st + es - pj))) <= 1e-7 * scale
+                    and float(np.max(np.abs(st + es + ei - p))) <= 1e-7 * scale):
+                return "s_true+e_spat / s_true+e_spat+e_interf are not the projections on reference %d / on all " \
+                       "references" % jt
+            got = [float(x) for x in sep._bss_source_crit(st, es, ei, ea)]
+            want = [_db(E(st + es), E(ei + ea)), _db(E(st + es), E(ei)), _db(E(st + es + ei), E(ea))]
+            for nm, g, w in zip(["sdr", "sir", "sar"], got, want):
+                if not _close(g, w, 1e-9 * max(1.0, abs(w) if math.isfinite(w) else 1.0)):
+                    return "%s against reference %d is %r, the energy ratio of the components is %r" % (nm, jt, g, w)
+    return None
+
+
+def check_ls_images(inp):
+    """`_project_images`: every channel of the result is the orthogonal projection of that channel of the estimate
+    on the span of ALL delayed reference channels; handing in G as zeros changes nothing and returns G; the
+    image decomposition sums to the estimate."""
+    refs3 = np.array(inp["refs3"], dtype=float)          # [src][chan][sample]
+    est = np.array(inp["est"], dtype=float)              # [chan][sample]
+    flen = inp["flen"]
+    nsrc, nchan, n = refs3.shape
+    B = _delayed_basis(refs3.reshape(nsrc * nchan, n), flen)
+    G = B @ B.T
+    if np.linalg.matrix_rank(G) < G.shape[0] or np.linalg.cond(G) > 1e6:
+        return None
+    R = refs3.transpose(0, 2, 1)
+    E = est.T
+    se = np.hstack((est, np.zeros((nchan, flen - 1))))
+    scale = max(1.0, float(np.max(np.abs(se))))
+    p = sep._project_images(R, E, flen)
+    if np.shape(p) != se.shape:
+        return "_project_images returns shape %r, the padded estimate has %r" % (np.shape(p), se.shape)
+    for c in range(nchan):
+        r = B @ (se[c] - p[c])
+        if not float(np.max(np.abs(r))) <= 1e-7 * scale * max(1.0, float(np.max(np.abs(B)))) * B.shape[1]:
+            return "channel %d: the residual of _project_images is not orthogonal to the delayed reference " \
+                   "channels: %r" % (c, r.tolist())
+        co = np.linalg.lstsq(B.T, p[c], rcond=None)[0]
+        if not float(np.max(np.abs(B.T @ co - p[c]))) <= 1e-7 * scale:
+            return "channel %d of _project_images lies outside the span of the delayed reference channels" % c
+    p2, G2 = sep._project_images(R, E, flen, np.zeros(1))
+    if not (float(np.max(np.abs(p2 - p))) <= 1e-9 * scale and float(np.max(np.abs(G2 - G))) <= 1e-7 * max(1.0, float(np.max(np.abs(G))))):
+        return "_project_images with G handed in as zeros: projection or returned Gram matrix differ"
+    p3, _ = sep._project_images(R, E, flen, G2)
+    if not float(np.max(np.abs(p3 - p))) <= 1e-9 * scale:
+        return "_project_images with the cached G differs from the uncached call by %.3g" % float(np.max(np.abs(p3 - p)))
+    for jt in range(nsrc):
+        comps = sep._bss_decomp_mtifilt_images(R, E, jt, flen)
+        if len(comps) != 4 or any(np.shape(x) != se.shape for x in comps):
+            return "image decomposition against reference %d: %d components of shapes %r" % (
+                jt, len(comps), [np.shape(x) for x in comps])
+        st, es, ei, ea = comps
+        if not float(np.max(np.abs(st + es + ei + ea - se))) <= 1e-9 * scale:
+            return "image decomposition (ref %d) does not sum to the estimate" % jt
+        if not float(np.max(np.abs(st + es + ei - p))) <= 1e-7 * scale:
+            return "s_true+e_spat+e_interf is not the projection on all reference channels (ref %d)" % jt
+        c6 = sep._bss_decomp_mtifilt_images(R, E, jt, flen, 0, np.zeros(1))
+        if len(c6) != 6 or any(float(np.max(np.abs(a - b))) > 1e-9 * scale for a, b in zip(c6[:4], comps)):
+            return "image decomposition with saved Gram matrices differs from the plain one (ref %d)" % jt
+    return None
+
+
+def _exact_rank_deficient(rows):
+    """are the integer/rational vectors `rows` linearly dependent?  (exact, fractions)"""
+    M = [[Fr(x) for x in r] for r in rows]
+    rank, ncol = 0, len(M[0]) if M else 0
+    for c in range(ncol):
+        piv = next((i for i in range(rank, len(M)) if M[i][c] != 0), None)
+        if piv is None:
+            continue
+        M[rank], M[piv] = M[piv], M[rank]
+        for i in range(rank + 1, len(M)):
+            if M[i][c] != 0:
+                f = M[i][c] / M[rank][c]
+                M[i] = [a - f * b for a, b in zip(M[i], M[rank])]
+        rank += 1
+    return rank < len(M)
+
+
+def _singular_rows(inp):
+    if "refs3" in inp:
+        r3 = inp["refs3"]
+        return [ch for src in r3 for ch in src]
+    return inp["refs"]
+
+
+def check_ls_singular(inp):
+    """rank-deficient references (valid, non-silent input): the signal returned by `_project(_images)` is still
+    the orthogonal projection on the span of the delayed references"""
+    rows = _singular_rows(inp)
+    flen = inp["flen"]
+    B = _delayed_basis(np.array(rows, dtype=float), flen)
+    if not _exact_rank_deficient([[int(x) if float(x).is_integer() else Fr(x) for x in b] for b in B.tolist()]):
+        return None
+    if "refs3" in inp:
+        R = np.array(inp["refs3"], dtype=float).transpose(0, 2, 1)
+        E = np.array(inp["est"], dtype=float).T
+        se = np.hstack((np.array(inp["est"], dtype=float), np.zeros((E.shape[1], flen - 1))))
+        raised, p = _solve_raises(lambda: sep._project_images(R, E, flen))
+    else:
+        R = np.array(inp["refs"], dtype=float)
+        E = np.array(inp["est"], dtype=float)
+        se = np.hstack((E, np.zeros(flen - 1)))[None, :]
+        raised, p = _solve_raises(lambda: sep._project(R, E, flen))
+        p = np.atleast_2d(p)
+    truth = np.array([B.T @ np.linalg.lstsq(B.T, x, rcond=None)[0] for x in se])
+    scale = max(1.0, float(np.max(np.abs(se))))
+    off = float(np.max(np.abs(p - truth)))
+    if off <= 1e-6 * scale:
+        return None
+    orth = float(np.max(np.abs(B @ (se - p).T)))
+    if raised:
+        return "rank-deficient references: the lstsq fall-back returns a signal that is not the orthogonal " \
+               "projection on the delayed references (off by %.3g, <b_k, residual> up to %.3g)" % (off, orth)
+    return "rank-deficient references: np.linalg.solve returned without LinAlgError on an exactly singular Gram " \
+           "matrix and the returned signal is not the orthogonal projection on the delayed references " \
+           "(off by %.3g, <b_k, residual> up to %.3g)" % (off, orth)
+
+
+def _gen_ls(rng, tier, shard, nshards, boost):
+    n = (60 if tier == "quick" else 400) * boost
+    for _ in range(n):
+        c = _ls_candidate(rng)
+        je = rng.randrange(len(c["refs"]))
+        yield {"check": "ls", "sub": rng.choice(["normal", "normal", "homog", "refscale", "idem", "crit"]),
+               "refs": c["refs"], "est": c["ests"][je], "flen": c["flen"],
+               "factors": [rng.choice([-3.0, 0.5, 7.0, -0.125, 100.0])],
+               "coef": [rng.randint(-3, 3) or 1 for _ in c["refs"]]}
+    for _ in range(n // 3):
+        c = _ls_images_candidate(rng)
+        yield {"check": "ls_images", "refs3": c["refs"], "est": rng.choice(c["ests"]), "flen": c["flen"]}
+    for _ in range(n // 3):
+        c = _ls_singular(rng)
+        yield {"check": "ls_singular", "refs": c["refs"], "est": c["est"], "flen": c["flen"]}
+        yield dict(_ls_singular_images(rng, _ls_signal(rng, len(c["est"]), "dense"), c["flen"]), check="ls_singular")
+
+
 def checker(inp):
     """Any exception of the real code on a generated (valid) input is a failure of the property."""
     import warnings
@@ -841,6 +1473,12 @@ def checker(inp):
 
 def _checker(inp):
     c = inp["check"]
+    if c == "ls":
+        return check_ls(inp)
+    if c == "ls_images":
+        return check_ls_images(inp)
+    if c == "ls_singular":
+        return check_ls_singular(inp)
     images = _is_images(inp)
     if c == "singular":
         return check_singular(inp)
@@ -963,12 +1601,14 @@ CHECKERS = {
     "separation.bss_eval_images": checker,
     "separation.bss_eval_sources_framewise": checker,
     "separation.bss_eval_images_framewise": checker,
+    "separation._project": checker,
 }
 ORACLES = {
     "separation.bss_eval_sources": _gen_nonframewise("sources"),
     "separation.bss_eval_images": _gen_nonframewise("images"),
     "separation.bss_eval_sources_framewise": _gen_framewise("sources_framewise"),
     "separation.bss_eval_images_framewise": _gen_framewise("images_framewise"),
+    "separation._project": _gen_ls,
 }
 
 
@@ -986,4 +1626,17 @@ def classify(suite, d):
         r = {k: i[k] for k in ("nsrc", "n", "seed", "kind", "flen", "tau", "nchan", "cp") if k in i}
         r.update(fn="images" if i.get("images") else "sources", check="perm")
         return "separation.bss_eval_images" if i.get("images") else "separation.bss_eval_sources", r
+    if suite == "ls_singular":
+        return "separation._project", dict({k: i[k] for k in ("refs", "refs3", "est", "flen") if k in i},
+                                           check="ls_singular")
+    if suite in ("ls_project", "ls_decomp", "ls_eval") and "refs" in i:
+        # the exact model and the real projection disagree: try the projection's own properties on that input
+        est = i.get("est") or (i.get("ests") or [None])[0]
+        if est is None:
+            return None
+        return "separation._project", {"check": "ls", "sub": "all", "refs": i["refs"], "est": est, "flen": i["flen"]}
+    if suite == "ls_images" and "refs3" in i:
+        je = i.get("je", 0)
+        return "separation._project", {"check": "ls_images", "refs3": i["refs3"], "est": i["ests3"][je],
+                                       "flen": i["flen"]}
     return None
